@@ -1,12 +1,14 @@
 (* Property C01 (top-down part).  PARTIAL: the level-by-level walk of top-down preparation maps |0..0> to the
    amplitude tree of its angle tables (every n, every table), and the angle tree computed from a state tree reproduces
-   the state's magnitudes and phases relative to the root (zero sub-trees included).  The list-level glue between the
-   emitted gate list (TopDownModel, tied to /repo by correspondence) and the semantic walk is by C13's theorems and is
-   not yet composed into one statement; the Schmidt-based, UCG and isometry-based initializers are tied by monitors and
-   evaluated. *)
+   the state's magnitudes and phases relative to the root (zero sub-trees included).  C01_topdown_model composes them with
+   C13's multiplexer theorems at list level: the GATE LIST of the executable model (the one compared with
+   TopDownInitialize on every run), for every n and every rational angle table, prepares the amplitude tree of its tables -
+   all four `any(angles_y)` / `any(angles_z)` branches, the shared omitted CNOT, the reversed RZ multiplexer and the qubit
+   placement included.  The Schmidt-based, UCG and isometry-based initializers are tied by monitors and evaluated. *)
 From Coq Require Import Reals Lra List Bool Arith NArith.
 From Coquelicot Require Import Complex.
-From QV Require Import Sem Mat2 Toff2 Chain UcrPlaced TopDownWalk AmpTree.
+From Coq Require Import QArith Qreals.
+From QV Require Import Sem Mat2 Toff2 Chain UcrPlaced TopDownWalk AmpTree UcrModel TopDownModel TopDownGlue.
 Open Scope R_scope.
 
 Theorem C01_topdown_amplitudes : forall (n : nat) (ay az : nat -> nat -> R) (b : asg),
@@ -23,3 +25,10 @@ Theorem C01_amp_tree : forall (mag arg : nat -> nat -> R),
   (amp (ay mag) (az arg) l j * mag 0%nat 0%nat = mag l j * cis (arg l j - arg 0%nat 0%nat))%C.
 Proof. intros mag arg H1 H2 H3 l j Hj. now apply amp_tree. Qed.
 Print Assumptions C01_amp_tree.
+
+Theorem C01_topdown_model : forall (n : nat) (ys zs : list (list Q)) (b : asg),
+  length ys = n -> length zs = n -> (forall q, (n <= q)%nat -> get b q = false) ->
+  run (map (valgate Q2R) (topdown_q0 n ys zs)) ket0 b
+  = amp (tab (map (map Q2R) ys)) (tab (map (map Q2R) zs)) n (lidx n n b).
+Proof. exact topdown_q0_amplitudes. Qed.
+Print Assumptions C01_topdown_model.
